@@ -14,12 +14,35 @@ var registry = map[string]checkFn{}
 
 func main() {
 	tier := flag.String("tier", "quick", "quick|thorough")
+	multi := flag.Bool("multi", false, "run the named properties in one process, printing FIRED <id> for each that reports")
 	flag.Parse()
 	if t := os.Getenv("VERIF_TIER"); t != "" && *tier == "quick" {
 		*tier = t
 	}
 	if *tier != "quick" && *tier != "thorough" {
 		*tier = "quick"
+	}
+	if flag.NArg() > 1 || (*multi && flag.NArg() == 1) {
+		// several properties in one process (used by the false-alarm replay, tools/refactor_check.sh): the tree is loaded
+		// once, each check runs on its own Check value; exit 1 if any of them reports
+		L, err := Load()
+		if err != nil {
+			fmt.Println("LOAD FAILED:", err)
+			os.Exit(1)
+		}
+		worst := 0
+		for _, prop := range flag.Args() {
+			fn, ok := registry[prop]
+			if !ok {
+				fmt.Println("unknown property", prop)
+				os.Exit(2)
+			}
+			if code := runLoaded(prop, *tier, fn, L); code != 0 {
+				fmt.Printf("FIRED %s exit=%d\n", prop, code)
+				worst = 1
+			}
+		}
+		os.Exit(worst)
 	}
 	if flag.NArg() != 1 {
 		var ids []string
@@ -50,6 +73,10 @@ func run(prop, tier string, fn checkFn) (code int) {
 		fmt.Printf("VIOLATION property=%s replay=%s\n", prop, p)
 		return 1
 	}
+	return runLoaded(prop, tier, fn, L)
+}
+
+func runLoaded(prop, tier string, fn checkFn, L *Loaded) (code int) {
 	c := NewCheck(prop, tier, L)
 	defer func() {
 		if r := recover(); r != nil {
